@@ -16,6 +16,7 @@ use crate::simdata::{BasicW, Knobs, SimData, SimpleW};
 use crate::val::Val;
 use crate::world::{compile, current_value, front_end, start, step, BuildOutcome, StepResult};
 use garnish_lang_simple_data::symbol_value;
+use garnish_lang_traits::GarnishData;
 use serde::{Deserialize, Serialize};
 use serde_json::{json, Value};
 
@@ -33,6 +34,14 @@ pub struct ScEval {
     pub input: Val,
     pub script: HostScript,
     pub max_steps: usize,
+    /// BasicGarnishData: display names the host entered in the symbol table itself before the build
+    /// (some datum of its own, `add_string(name)`, `push_to_symbol_table_block(symbol, text)`)
+    #[serde(default)]
+    pub host_names: Vec<String>,
+    /// residue of an earlier failure: before the run, one resolve / deferred operation / (Basic) external apply is
+    /// offered through the store's own entry points to a host that answers each with Err
+    #[serde(default)]
+    pub prior_failed_callbacks: bool,
 }
 
 struct Real {
@@ -52,6 +61,16 @@ fn run_real<D: SimData>(sc: &ScEval, out: &mut Outcome) -> Option<Real> {
         }
         out.probe("host-registered-jump-entries-before-the-build");
     }
+    if !sc.host_names.is_empty() {
+        if let Some(b) = d.as_any_mut().and_then(|a| a.downcast_mut::<BasicW>()) {
+            for (k, name) in sc.host_names.iter().enumerate() {
+                b.add_external(7 + k).ok()?;
+                let text = b.add_string(name).ok()?;
+                b.push_to_symbol_table_block(symbol_value(name), text).ok()?;
+            }
+            out.probe("host-entered-symbol-names-before-the-build");
+        }
+    }
     let built = match compile(&mut d, &sc.src) {
         BuildOutcome::Ok(b) => b,
         other => {
@@ -63,6 +82,25 @@ fn run_real<D: SimData>(sc: &ScEval, out: &mut Outcome) -> Option<Real> {
         }
     };
     d.host_mut().recording = true;
+    if sc.prior_failed_callbacks {
+        let mut failing = HostScript::default();
+        failing.resolve_default = Some(Answer::Fail);
+        failing.apply_default = Some(Answer::Fail);
+        failing.defer_default = Some(Answer::Fail);
+        let own = std::mem::replace(&mut d.host_mut().script, failing);
+        let unit = d.add_unit().ok()?;
+        let r1 = d.resolve(symbol_value("t1")).is_err();
+        let r2 = d.defer_op(garnish_lang_traits::Instruction::Add, (garnish_lang_traits::GarnishDataType::Unit, 0), (garnish_lang_traits::GarnishDataType::Unit, 0)).is_err();
+        let r3 = !D::IS_BASIC || d.apply(1, unit).is_err();
+        d.host_mut().script = own;
+        d.host_mut().reset_run();
+        d.host_mut().fired_fail = 0;
+        if !(r1 && r2 && r3) {
+            out.violate("C17.prior-failure-swallowed", format!("a callback answered Err and the store's entry point returned Ok (resolve {r1}, defer_op {r2}, apply {r3})"));
+            return None;
+        }
+        out.probe("run-after-earlier-failed-callbacks");
+    }
     // what a host does after a build on BasicGarnishData: the constants are only protected from compaction
     // (a scripted host may compact inside a callback) by the retained prefix
     d.retain_now();
@@ -344,7 +382,7 @@ impl Campaign for C10 {
             }
         }
         let host_jumps = if vr.chance(1, 3) { vr.range(1, 16) } else { 0 };
-        ScEval { host_jumps, working_copy: !basic && vr.chance(1, 4), basic, src, input: Val::Unit, script, max_steps: 3000 }
+        ScEval { host_jumps, working_copy: !basic && vr.chance(1, 4), basic, src, input: Val::Unit, script, max_steps: 3000, host_names: vec![], prior_failed_callbacks: false }
     }
 
     fn execute(&self, sc: &ScEval) -> Outcome {
@@ -368,7 +406,7 @@ impl Campaign for C10 {
                     let mut script = HostScript::default();
                     script.resolve.insert(symbol_value("c"), Answer::Provide(rep.clone()));
                     script.resolve_default = Some(Answer::Unique);
-                    v.push(ScEval { host_jumps: 0, working_copy: false, basic, src: con.to_string(), input: Val::Unit, script, max_steps: 200 });
+                    v.push(ScEval { host_jumps: 0, working_copy: false, basic, src: con.to_string(), input: Val::Unit, script, max_steps: 200, host_names: vec![], prior_failed_callbacks: false });
                 }
             }
             // workload A3: the same constructs (and two else-chains) built after the host registered 1..16 jump entries
@@ -380,7 +418,7 @@ impl Campaign for C10 {
                         script.resolve.insert(symbol_value("c"), if truthy { Answer::Provide(Val::Int(7)) } else { Answer::Decline });
                         script.resolve.insert(symbol_value("d"), Answer::Decline);
                         script.resolve_default = Some(Answer::Unique);
-                        v.push(ScEval { host_jumps, working_copy: false, basic, src: con.to_string(), input: Val::Unit, script, max_steps: 200 });
+                        v.push(ScEval { host_jumps, working_copy: false, basic, src: con.to_string(), input: Val::Unit, script, max_steps: 200, host_names: vec![], prior_failed_callbacks: false });
                     }
                 }
             }
@@ -414,7 +452,7 @@ impl Campaign for C10 {
                                 script.resolve.insert(symbol_value("a"), Answer::Provide(a.clone()));
                                 script.resolve.insert(symbol_value("b"), Answer::Provide(b.clone()));
                                 script.resolve_default = Some(Answer::Unique);
-                                v.push(ScEval { host_jumps: 0, working_copy: false, basic, src: format!("c {} {}", logical, shape), input: Val::Unit, script, max_steps: 200 });
+                                v.push(ScEval { host_jumps: 0, working_copy: false, basic, src: format!("c {} {}", logical, shape), input: Val::Unit, script, max_steps: 200, host_names: vec![], prior_failed_callbacks: false });
                             }
                         }
                     }
@@ -425,7 +463,7 @@ impl Campaign for C10 {
                 let mut script = HostScript::default();
                 script.resolve.insert(symbol_value("c"), Answer::Decline);
                 script.resolve_default = Some(Answer::Unique);
-                v.push(ScEval { host_jumps: 0, working_copy: false, basic, src: con.to_string(), input: Val::Unit, script, max_steps: 200 });
+                v.push(ScEval { host_jumps: 0, working_copy: false, basic, src: con.to_string(), input: Val::Unit, script, max_steps: 200, host_names: vec![], prior_failed_callbacks: false });
             }
         }
         v
@@ -580,7 +618,18 @@ impl Campaign for C17 {
         if basic && rng.chance(1, 8) {
             compact_in_resolve(&mut script);
         }
-        ScEval { host_jumps, working_copy, basic, src, input, script, max_steps: 3000 }
+        // (last draws) names the host entered in the symbol table itself before the build; an earlier failed callback
+        let mut host_names = vec![];
+        if basic && rng.chance(1, 6) {
+            for _ in 0..rng.range(1, 3) {
+                let n = *rng.pick(&["t1", "t2", "t3", "f1", "x1", "x2", "_u1", "u2_", "u4", "ka"]);
+                if !host_names.iter().any(|h: &String| h == n) {
+                    host_names.push(n.to_string());
+                }
+            }
+        }
+        let prior_failed_callbacks = rng.chance(1, 8);
+        ScEval { host_jumps, working_copy, basic, src, input, script, max_steps: 3000, host_names, prior_failed_callbacks }
     }
 
     fn execute(&self, sc: &ScEval) -> Outcome {
@@ -620,9 +669,9 @@ impl Campaign for C17 {
                         });
                         script.resolve.insert(symbol_value("x1"), Answer::Provide(Val::External(4)));
                         script.apply_default = Some(if mode == 0 { Answer::Decline } else { Answer::Unique });
-                        v.push(ScEval { host_jumps: 0, working_copy: false, basic, src: p.to_string(), input: input.clone(), script: script.clone(), max_steps: 300 });
+                        v.push(ScEval { host_jumps: 0, working_copy: false, basic, src: p.to_string(), input: input.clone(), script: script.clone(), max_steps: 300, host_names: vec![], prior_failed_callbacks: false });
                         if !basic {
-                            v.push(ScEval { host_jumps: 0, working_copy: true, basic, src: p.to_string(), input: input.clone(), script, max_steps: 300 });
+                            v.push(ScEval { host_jumps: 0, working_copy: true, basic, src: p.to_string(), input: input.clone(), script, max_steps: 300, host_names: vec![], prior_failed_callbacks: false });
                         }
                     }
                 }
